@@ -22,6 +22,10 @@ def _norm_body(r):
         r['parent'] = norm_path(r['parent'])
     for blks in [r['blocks']] + list(r.get('promoted') or []):
         for blk in blks:
+            for st in blk['s']:
+                rv = st['r']
+                if rv.get('k') == 'agg' and rv.get('ak') in ('closure', 'coroutine') and 'adt' in rv:
+                    rv['adt'] = norm_path(rv['adt'])
             t = blk['t']
             if t['k'] == 'call' and 'fn' in t['f']:
                 f = t['f']
